@@ -81,7 +81,18 @@ pub fn cases(ctx: &Ctx, section: &str, unit: u64) -> Vec<Case> {
                         let mut fr = rng.sub("fault");
                         let mut faults = Vec::new();
                         let strings: Vec<&str> = base.walk.iter().map(|s| s.string.as_str()).collect();
-                        match fr.below(4) {
+                        match fr.below(5) {
+                            4 if !base.pasted.is_empty() => {
+                                // a block comment that never ends: the lexer reports it at the
+                                // end-of-file position of that file
+                                let f = fr.pick(&base.pasted).clone();
+                                let tail = if fr.chance(1, 2) {
+                                    "\n/* a comment that never ends"
+                                } else {
+                                    "\n/* a comment that never ends\n\n"
+                                };
+                                faults.push(Fault::new(FaultKind::Append, Sel::File(f)).text(tail));
+                            }
                             0 | 1 if !strings.is_empty() => {
                                 let kind = if fr.chance(1, 2) {
                                     FaultKind::NotFound
@@ -463,11 +474,13 @@ pub fn judge(case: &Case, rep: &mut Report) {
             }
             let m = model::run(&case.fss[task.fs], &task.faults, &task.entry, &task.defines);
             // Where does the model say the first failure is?
+            let mut construct_line: Option<u32> = None;
             let (file, line, what): (String, u32, String) = match &m.verdict {
                 Verdict::Fail(f) => match (&f.kind, &f.at) {
                     // (a failing #if condition is reported where its first token was written, which may
                     // be a macro body in another file: not a position the simulator planted)
                     (FailKind::Load(_) | FailKind::Lex, Some((file, line))) => {
+                        construct_line = f.starts_at;
                         (file.clone(), *line, format!("{:?}", f.kind))
                     }
                     _ => {
@@ -546,7 +559,9 @@ pub fn judge(case: &Case, rep: &mut Report) {
                 rep.nontrivial.insert(digest);
             }
             let earlier: Vec<String> = m.pasted.clone();
-            metamorphic(case, ex, &d, &r.text, &file, line - 1, &earlier, rep);
+            // trivia is inserted above the line on which the offending construct starts
+            let above = construct_line.unwrap_or(line) - 1;
+            metamorphic(case, ex, &d, &r.text, &file, above, &earlier, rep);
         }
         "diag-corpus-load" => {
             let k = case.params.gu("k");
